@@ -32,7 +32,7 @@ pub fn def() -> CheckDef {
         runs_quick: 150_000,
         runs_thorough: 3_000_000,
         rule: "fault injection of contract-violating calls: each of the seven rejected-call kinds is enumerated over every public type that exposes it (cts x6, block modes x12, async x4, byte streams x8, padded decrypt x6 with 5 paddings and 3 forms, four slice constructors over all types) with sampled sizes/positions, inside otherwise valid histories; plus a no-panic sweep of legal histories (every op alphabet, lengths 0,1,bs-1,bs,bs+1,many, block sizes 1..255, all IV classes, counter positions across the whole range, restart from valid exported state). distinct = distinct (fault kind, type, block size, cipher, sizes class, history shape); non-trivial = the injected call was executed (a) / >= 2 operations (b)",
-        required_probes: &["cts_short", "cts_exactly_one_block_ok", "blocks_b2b_unequal", "async_b2b_unequal", "stream_b2b_unequal", "cts_b2b_unequal", "padded_dec_bad_len", "ctor_bad_key", "ctor_bad_iv", "ctor_ige_one_block_iv", "sweep_seek_far", "sweep_restart", "sweep_padded", "sweep_bs255", "sweep_bs1"],
+        required_probes: &["cts_short", "cts_exactly_one_block_ok", "blocks_b2b_unequal", "async_b2b_unequal", "stream_b2b_unequal", "cts_b2b_unequal", "padded_dec_bad_len", "ctor_bad_key", "ctor_bad_iv", "ctor_ige_one_block_iv", "sweep_seek_far", "sweep_restart", "sweep_padded", "sweep_bs255", "sweep_bs1", "sweep_cts_valid_lengths", "sweep_cts_width_1"],
         r#gen,
         exec,
         components: "real code: all nine crates and cipher's front ends; stub: block cipher in most runs, real ciphers in the rest; every run under catch_unwind (a panic raised by the code under test is a violation, one raised by the harness a harness error)",
@@ -41,10 +41,22 @@ pub fn def() -> CheckDef {
 }
 
 fn r#gen(rng: &mut Rng, thorough: bool) -> Scn {
-    let fault = if rng.chance(2, 5) { 7 } else { rng.below(7) };
+    let fault = match rng.below(20) {
+        0..=6 => 7,
+        7 | 8 => 8,
+        _ => rng.below(7),
+    };
     let pool = 64 + rng.usize(400);
     let mut s;
     match fault {
+        8 => {
+            // legal cts calls of every length >= one block: must succeed, must not panic
+            let mode = *rng.pick(&CTS_MODES);
+            s = base_scn(rng, "C13", mode, true, 1, pool);
+            let bs = s.bs as u64;
+            let n = bs + rng.nbytes(if bs == 255 { 10 * bs } else { 40 * bs }, bs);
+            s.ops.push(Op::new("cts").n(n).via(rng.below(N_CTS_FORMS as u64) as u8).ty(rng.below(2) as u8));
+        }
         0 | 4 => {
             let mode = *rng.pick(&CTS_MODES);
             s = base_scn(rng, "C13", mode, true, 1, pool);
@@ -182,13 +194,18 @@ fn r#gen(rng: &mut Rng, thorough: bool) -> Scn {
 }
 
 fn exec(scn: &Scn, ctx: &mut Ctx) -> Verdict {
-    env_setup(scn, false);
-    sig_base(ctx, scn);
+    // the twin that "never saw the rejected call" must differ from the instance under test in
+    // nothing else: same fixed backend width for every instance of a run
+    let mut s2 = scn.clone();
+    let w = scn.pol[0].max_width();
+    s2.pol = vec![crate::simcipher::Policy::Fixed(w); 4];
+    env_setup(&s2, false);
+    sig_base(ctx, &s2);
     let fault = scn.num("fault");
     ctx.sig.u(fault as u64);
     let bs = scn.bs;
     match fault {
-        0 | 4 => {
+        0 | 4 | 8 => {
             if !CTS_MODES.contains(&scn.mode.as_str()) {
                 invalid!("mode");
             }
@@ -197,7 +214,9 @@ fn exec(scn: &Scn, ctx: &mut Ctx) -> Verdict {
                 _ => invalid!("op"),
             };
             let dec = op.ty % 2 == 1;
-            let (n, m, form) = if fault == 0 { (op.n as usize, op.n as usize, op.via % N_CTS_FORMS) } else { (op.n as usize, op.m as usize, 1) };
+            ctx.probe_if(fault == 8, "sweep_cts_valid_lengths");
+            ctx.probe_if(fault == 8 && w == 1, "sweep_cts_width_1");
+            let (n, m, form) = if fault != 4 { (op.n as usize, op.n as usize, op.via % N_CTS_FORMS) } else { (op.n as usize, op.m as usize, 1) };
             if n > 1 << 14 || m > 1 << 14 {
                 invalid!("len");
             }
